@@ -250,11 +250,37 @@ BINARY = [
     Ev('divide', 2, lambda x, y, a: x / (y * y + 1.0), lambda x, y: _is_t(x) and _is_t(y), slow=True),
 ]
 
+def _cross_start(s, arg):
+    N = s.N
+    d = len(N)
+    f = lambda I: 1.0 / (2.0 + I.sum(dim=1).to(torch.float64))
+    return torchtt.interpolate.dmrg_cross(f, list(N), eps=1e-6, nswp=2, x_start=s)
+
+
+def _interp_start(x, s, arg):
+    return torchtt.interpolate.function_interpolate(lambda t: t * t, x, eps=1e-6, start_tens=s, nswp=2)
+
+
+def _real_t(x):
+    return _is_t(x) and not x.cores[0].dtype.is_complex and x.cores[0].dtype == torch.float64 and len(x.N) >= 2
+
+
+UNARY += [
+    Ev('dmrg_cross_start', 1, _cross_start, lambda x: _real_t(x) and all(n >= 2 for n in x.N), slow=True),
+    Ev('riemannian_gradient', 1, lambda x, a: torchtt.manifold.riemannian_gradient(x, lambda X: 0.5 * (X * X).sum() if X.is_ttm else 0.5 * torchtt.dot(X, X)),
+       lambda x: not x.cores[0].dtype.is_complex and len(x.N) >= 2 and not any(c.requires_grad for c in x.cores)),
+]
+BINARY += [
+    Ev('function_interpolate_start', 2, _interp_start, lambda x, s: _real_t(x) and _real_t(s) and x.N == s.N and all(n >= 2 for n in x.N), slow=True),
+]
+
 TERNARY = [
     Ev('fast_matvec_init', 3, lambda x, y, z, a: x.fast_matvec(y, initial=z, nswp=4, use_cpp=False)),
     Ev('dmrg_hadamard_init', 3, lambda x, y, z, a: torchtt.dmrg_hadamard(x, y, z0=z, nswp=4)),
     Ev('amen_mv_init', 3, lambda x, y, z, a: torchtt.amen_mv(x, y, x0=z, nswp=4), slow=True),
     Ev('bilinear', 3, lambda x, y, z, a: torchtt.bilinear_form(x, y, z)),
+    Ev('amen_mm_init', 3, lambda x, y, z, a: torchtt.amen_mm(x, y, X0=z, nswp=4),
+       lambda x, y, z: x.is_ttm and y.is_ttm and z.is_ttm and x.N == y.M and z.M == x.M and z.N == y.N, slow=True),
     Ev('amen_solve_init', 3, _solve, lambda A, b, x0: A.is_ttm and A.M == A.N and _is_t(b) and _is_t(x0) and A.N == b.N and b.N == x0.N, slow=True),
     Ev('ediv_init', 3, lambda x, y, z, a: torchtt.elementwise_divide(x, y * y + 1.0, starting_tensor=z, nswp=4, eps=1e-6),
        lambda x, y, z: _is_t(x) and _is_t(y) and _is_t(z) and x.N == y.N == z.N, slow=True),
